@@ -12,7 +12,10 @@ Inductive value :=
 | VNull | VBool (b : bool) | VInt (z : Z) | VStr (s : string)
 | VArr (l : list value)                       (* list arrays of scalars, value semantics *)
 | VObj (id : nat) (cls msg : string)          (* an exception object: identity, class, message *)
-| VErr (msg : string).                        (* an internal error (ThrowValue without an object) *)
+| VErr (msg : string)                         (* an internal error (ThrowValue without an object) *)
+| VClo (id oid : nat) (cap : list (string * value)).
+                                              (* a closure object: which closure of the program, its
+                                                 identity, the by-value captures taken at creation *)
 
 Inductive bop := Add | Sub | Mul | Lt | Le | Gt | Ge | Eq | Ne | Concat.
 
@@ -34,6 +37,10 @@ Inductive expr :=
 | EPanic                                       (* a call whose Go body panics (the check registers such a
                                                   built-in): TryStatement's guard turns the panic into a
                                                   catchable internal error *)
+| EIdx (x : string) (i : expr)                 (* $x[i] *)
+| EIdxInc (pre : bool) (x : string) (i : expr) (* ++$x[i] / $x[i]++ *)
+| EClosure (id : nat)                          (* function (..) use (..) {..} / fn (..) => e : the id-th closure of the program *)
+| ECallV (f : expr) (a : args)                 (* $f(args) *)
 | EMatch (s : expr) (m : marms)                (* match (s) { c1, c2 => e, ..., default => d } *)
 with args := ANil | ACons (e : expr) (r : args)
 (* the arms in source order; the `default` arm is kept last (the parser stores it apart and a match
@@ -47,6 +54,7 @@ Inductive stmt :=
 | SExpr (e : expr)
 | SEcho (e : expr)
 | SPush (x : string) (e : expr)                (* $x[] = e; *)
+| SSetIdx (x : string) (k : Z) (e : expr)      (* $x[k] = e;  with a literal index *)
 | SIf (c : expr) (t : stmt) (ei : elifs) (e : stmt)
 | SWhile (c : expr) (b : stmt)
 | SDoWhile (b : stmt) (c : expr)
@@ -64,7 +72,11 @@ with clauses := CLNil | CLCase (e : expr) (b : stmt) (r : clauses) | CLDefault (
 with catches := CTNil | CTCons (ty : string) (x : option string) (b : stmt) (r : catches).
 
 Record fundef := { fname : string; fparams : list (string * option value); fbody : stmt }.
-Record prog := { funcs : list fundef; main : stmt }.
+(* a closure of the program text: parameters, the variables captured by value (use ($a, $b); for an
+   arrow function every variable of its body that the enclosing scope has), the body (an arrow
+   function's body is `return e;`) *)
+Record clodef := { cparams : list (string * option value); cuses : list string; cbody : stmt }.
+Record prog := { funcs : list fundef; closures : list clodef; main : stmt }.
 
 Fixpoint find_fun (fs : list fundef) (f : string) : option fundef :=
   match fs with
@@ -129,13 +141,13 @@ Definition to_str (v : value) : string :=
   match v with
   | VNull => "" | VBool true => "true" | VBool false => "false"
   | VInt z => z_to_str z | VStr s => s | VArr _ => "Array"
-  | VObj _ _ _ => "Object" | VErr m => m
+  | VObj _ _ _ => "Object" | VErr m => m | VClo _ _ _ => "Closure"
   end.
 Definition truthy (v : value) : bool :=
   match v with
   | VNull => false | VBool b => b | VInt z => negb (z =? 0)%Z
   | VStr s => negb (String.eqb s "") | VArr l => match l with [] => false | _ => true end
-  | VObj _ _ _ | VErr _ => true
+  | VObj _ _ _ | VErr _ | VClo _ _ _ => true
   end.
 Definition scalar_eqb (a b : value) : bool :=
   match a, b with
@@ -195,6 +207,23 @@ Definition switch_match (a b : value) : bool :=
   end.
 Definition arr_push (a v : value) : value :=
   match a with VArr l => VArr (l ++ [v]) | VNull => VArr [v] | _ => a end.
+(* $a[i] on list arrays (in range; the generator never leaves the range) *)
+Definition arr_get (a i : value) : value :=
+  match a, i with
+  | VArr l, VInt z => if (z <? 0)%Z then VNull else nth (Z.to_nat z) l VNull
+  | _, _ => VNull
+  end.
+Fixpoint list_set (n : nat) (v : value) (l : list value) : list value :=
+  match l, n with
+  | [], _ => []
+  | _ :: r, O => v :: r
+  | a :: r, S n' => a :: list_set n' v r
+  end.
+Definition arr_set (a i v : value) : value :=
+  match a, i with
+  | VArr l, VInt z => if (z <? 0)%Z then a else VArr (list_set (Z.to_nat z) v l)
+  | _, _ => a
+  end.
 (* foreach items: (key, value) pairs of a list array; None when the subject is not iterable *)
 Fixpoint items_from (i : Z) (l : list value) : list (value * value) :=
   match l with [] => [] | v :: r => (VInt i, v) :: items_from (i + 1) r end.
@@ -218,8 +247,17 @@ Arguments Fuel {A}.
 Arguments Res {A} a fr g.
 (* expression outcome: a value, or a thrown value *)
 Inductive eout := EV (v : value) | EX (v : value).
-(* what a call does: function name, argument values, global state -> outcome + global state *)
-Definition callfn := string -> list value -> glob -> option (eout * glob).
+(* what a call does: the callee (a named function, or a closure object), argument values, global
+   state -> outcome + global state *)
+Inductive callee := CFun (f : string) | CClo (id oid : nat) (cap : list (string * value)).
+Definition callfn := callee -> list value -> glob -> option (eout * glob).
+(* the static cells of a closure object are keyed by a name no function can have *)
+Definition clo_name (oid : nat) : string := "{" ++ z_to_str (Z.of_nat oid).
+(* by-value capture at creation; installing the captures in the callee's frame *)
+Definition capture (fn : string) (uses : list string) (fr : frame) (g : glob) : list (string * value) :=
+  map (fun x => (x, rd fn x fr g)) uses.
+Fixpoint bind_captured (cap : list (string * value)) (e : env) : env :=
+  match cap with [] => e | (x, v) :: r => bind_captured r (update x v e) end.
 
 Definition err (m : string) : value := VStr m.
 
